@@ -59,6 +59,7 @@ var (
 	ErrInjected = errors.New("verif: injected writer failure")
 	ErrExpr     = errors.New("verif: injected expression error")
 	ErrComp     = errors.New("verif: injected component error")
+	ErrSide     = errors.New("verif: injected failure of the collecting component's own writer")
 )
 
 // Plan is a fault plan of the specification.
@@ -71,6 +72,10 @@ type Plan struct {
 		K string `json:"k"` // none expr leaf cancel cancelat
 		J int    `json:"j"`
 	} `json:"l"`
+	S struct { // fault of the collecting component's own writer
+		K int    `json:"k"`
+		M string `json:"m"`
+	} `json:"s"`
 }
 
 // RenderState is the per-render state the items' closures refer to.
@@ -81,12 +86,15 @@ type RenderState struct {
 	Cancel      context.CancelFunc
 	ExprErr     bool // an expression returned its error
 	LeafErr     bool
+	SideFired   bool   // the collecting component's own writer failed
+	SideCalls   int    // how often that writer was written to
+	SW          bool   // the writers of this render implement io.StringWriter
 	CancelFired bool   // an expression cancelled the context (plan cancelat)
 	OnEval      func() // optional perturbation (C14)
 }
 
 func (rs *RenderState) Reset(p Plan, cancel context.CancelFunc) {
-	*rs = RenderState{Plan: p, Cancel: cancel, OnEval: rs.OnEval}
+	*rs = RenderState{Plan: p, Cancel: cancel, OnEval: rs.OnEval, SW: rs.SW}
 }
 
 var litKinds = map[int]int{1: KLit1, 2: KLit2, 3: KLit3, 5: KLit5}
@@ -146,6 +154,17 @@ func Build(prog []Op, rs *RenderState) ([]Item, error) {
 			})})
 		case "slot":
 			items = append(items, Item{Kind: KSlot})
+		case "hcb":
+			// @hand { @body }: the callee is a hand-written component, the block is the generated closure
+			body, err := Build(o.A, rs)
+			if err != nil {
+				return nil, err
+			}
+			hand := PassThrough()
+			if o.N == 1 {
+				hand = Collector(rs)
+			}
+			items = append(items, Item{Kind: KCallBlock, C: hand, Body: Interp(body)})
 		case "call", "flush", "cb", "join":
 			a, err := Build(o.A, rs)
 			if err != nil {
@@ -238,6 +257,38 @@ func GeneratedFile() string {
 	return filepath.Join(filepath.Dir(file), "interp_templ.go")
 }
 
+// PassThrough is a hand-written component that renders the block it was given into the writer it was given.
+func PassThrough() templ.Component {
+	return templ.ComponentFunc(func(ctx context.Context, w io.Writer) error {
+		children := templ.GetChildren(ctx)
+		ctx = templ.ClearChildren(ctx)
+		return children.Render(ctx, w)
+	})
+}
+
+// Collector is a hand-written component that renders the block it was given into a writer of its own
+// (which fails as the plan's S says) and then forwards what that writer received.
+func Collector(rs *RenderState) templ.Component {
+	return templ.ComponentFunc(func(ctx context.Context, w io.Writer) error {
+		children := templ.GetChildren(ctx)
+		ctx = templ.ClearChildren(ctx)
+		side := &FaultWriter{ID: -1, K: -1, M: "none", Err: ErrSide}
+		if rs != nil && rs.Plan.S.M != "" && rs.Plan.S.M != "none" {
+			side.K, side.M = rs.Plan.S.K, rs.Plan.S.M
+		}
+		err := children.Render(ctx, side.Writer(rs != nil && rs.SW))
+		if rs != nil {
+			rs.SideFired = rs.SideFired || side.Dead
+			rs.SideCalls += side.Calls
+		}
+		if err != nil {
+			return err
+		}
+		_, err = w.Write(side.Buf)
+		return err
+	})
+}
+
 // Classify maps an error returned by Render to the specification's error names.
 func Classify(err error) string {
 	switch {
@@ -247,6 +298,8 @@ func Classify(err error) string {
 		return "expr"
 	case errors.Is(err, ErrComp):
 		return "comp"
+	case errors.Is(err, ErrSide):
+		return "sinj"
 	case errors.Is(err, ErrInjected):
 		return "inj"
 	case errors.Is(err, io.ErrShortWrite):
@@ -297,14 +350,24 @@ type FaultWriter struct {
 	Dead    bool
 	Flushes []int // len(Buf) at each http.Flusher.Flush
 	Delay   func()
+	Err     error // the error it fails with (ErrInjected if nil)
+	Calls   int
+}
+
+func (w *FaultWriter) fail() error {
+	if w.Err != nil {
+		return w.Err
+	}
+	return ErrInjected
 }
 
 func (w *FaultWriter) accept(n int) (int, error) {
 	if w.Delay != nil {
 		w.Delay()
 	}
+	w.Calls++
 	if w.Dead {
-		return 0, ErrInjected
+		return 0, w.fail()
 	}
 	if w.M == "none" || w.M == "" || len(w.Buf)+n <= w.K {
 		return n, nil
@@ -313,7 +376,7 @@ func (w *FaultWriter) accept(n int) (int, error) {
 	w.Dead = true
 	switch w.M {
 	case "err":
-		return room, ErrInjected
+		return room, w.fail()
 	case "short":
 		return room, nil
 	default: // zero
